@@ -51,10 +51,10 @@ def relabel_nodes(
             int(g.expansion_depthing),
         )
     else:
-        if hasattr(i, "gengy_init_values"):
-            children = [(typ[1], i.gengy_init_values[idx]) for idx, typ in enumerate(get_arguments(i))]
-        elif isinstance(i, list):
+        if isinstance(i, list):
             children = [(type(obj), obj) for obj in i]
+        elif hasattr(i, "gengy_init_values"):
+            children = [(typ[1], i.gengy_init_values[idx]) for idx, typ in enumerate(get_arguments(i))]
         else:
             assert False
 
